@@ -1,12 +1,12 @@
 CONSTANTS
-  KeySeq <- K_ab
-  CKeySeq <- K_abx
+  KeySeq <- K_abcde
+  CKeySeq <- K_abcde
   HVals = {"1", "2"}
   CVals = {"1", "2", ""}
-  DVals = {"1", "2"}
+  DVals = {"1"}
   UVals = {"1"}
-  PrefixLen = 0
-  MaxHosts = 3
+  PrefixLen = 3
+  MaxHosts = 2
   MaxSel = 2
   Defects = {}
 SPECIFICATION EmitSpec
